@@ -14,7 +14,8 @@ synchronisation operations):
     sleep    time.sleep(s)                  enabled when clock >= clock-at-call + s
     start    Thread.start()                 the child runs up to its first yield point inside this step
     join     Thread.join()                  enabled when the target has ended (or the time-out has passed)
-    set      Event.set()       isset  Event.is_set()      clear  Event.clear()
+    set      Event.set()  (before the flag is set)      setret  the return from Event.set()  (after it)
+    isset    Event.is_set()      clear  Event.clear()
     wait     Event.wait(t)                  enabled when the flag is set or the time-out has passed
     acquire  Lock.acquire() / `with lock`   enabled when the lock is free (RLock: or owned by the caller)
     work     Baton.work()                   an explicit yield point for the body of the caller
@@ -141,6 +142,12 @@ class Baton(object):
         self.threads[name] = _LT(name)
         self._launch(name, fn, args, kwargs)
 
+    def retire(self):
+        """forget the logical threads that have ended: a following run in the same process can use the names "M", "S" again"""
+        for name in [n for n, lt in self.threads.items() if lt.status == "done"]:
+            del self.threads[name]
+        self._nshim = len([n for n in self.threads if n != "M"])
+
     def _new_name(self):
         self._nshim += 1
         return "S" if self._nshim == 1 else "S%d" % self._nshim
@@ -229,6 +236,9 @@ class ShimEvent(object):
     def set(self):
         self._b.yield_point("set")
         self._flag = True
+        # set() wakes waiters: the moment it returns is a scheduling point of its own (what the caller does next - for
+        # instance looking up the thread it is going to join - is not atomic with the signal)
+        self._b.yield_point("setret")
 
     def clear(self):
         self._b.yield_point("clear")
